@@ -1,5 +1,6 @@
 import Bng.Drv.Common
 import Bng.Drv.XdpDhcp
+import Bng.Drv.TcSafe
 import Bng.Drv.Decoders
 import Bng.Drv.Coa
 import Bng.Drv.Acct
@@ -33,6 +34,7 @@ open Bng.Drv
 
 def components : List (String × Component) := [
   ("xdpdhcp", XdpDhcpDrv.component),
+  ("tcprogs", TcSafeDrv.component),
   ("decoders", DecodersDrv.component),
   ("coa", CoaDrv.component),
   ("acct", AcctDrv.component),
